@@ -1,6 +1,9 @@
-"""C15 — no response can crash the client.  PARTIAL: the model starts at decoded blocks."""
-import glob, json, os, shutil
+"""C15 — no response can crash the client.  Coq: Client.v (decoded view) and MessageBytes.v (the reply's bytes:
+car.Decode + NewBlockReader + NewMessage + typed dag-cbor decoding), tied by C15_bytes_refines.  PARTIAL only for the
+reading of the receipts a report names (exercised under recover, not modelled)."""
+import glob, json, os, shutil, subprocess, tempfile
 import vlib
+from props import _bytes
 
 
 def check(run):
@@ -13,7 +16,9 @@ def check(run):
     rc, out, dt = vlib.run_harness(env["bin"], ["gen", "C15", "-tier", run.tier, "-seed", str(run.seed), "-out", wd], timeout=2400)
     if rc != 0:
         tail = out[-1500:]
-        if "panic:" in out or "fatal error" in out:
+        if "watchdog:" in out:
+            run.violation("hang", "the client never returned: " + [l for l in out.splitlines() if "watchdog:" in l][0][:300], dict(log=tail))
+        elif "panic:" in out or "fatal error" in out:
             run.violation("crash", "the client harness process crashed outside recover: " + tail[-500:], dict(log=tail))
         else:
             run.violation("harness-run", "harness gen C15 failed: " + tail[-600:], dict(log=tail), no_input=True)
@@ -45,6 +50,10 @@ def check(run):
     run.obligation("correspondence: model = implementation on every structured reply", ok)
     if not ok and not run.violations:
         run.violation("correspondence-broken", "case files could not be evaluated", dict(notes=run.notes), no_input=True)
+    # byte-level model: every scripted reply body (raw mutations included) and the re-encoded variants
+    bstats = _bytes.evaluate(run, wd, "bytes_C15", "reply bodies through client.Execute and request.Decode")
+    if bstats:
+        run.cov["bytes_model"] = bstats
     if not env["props_ok"] or not env["coq_ok"]:
         run.violation("proof-broken", "Coq development or Properties_C15.v no longer checks", dict(log=env["props_log"][-1500:]), no_input=True)
     run.cov.update(evaluations=stats["replies"], distinct_nontrivial=len(stats["distinct_signatures"]),
@@ -58,10 +67,17 @@ def check(run):
                         "ReceiptReader.Read of every reported receipt and all accessors (Out, Ran, Fx, Meta, Issuer, Proofs, Signature, Root, Blocks) under recover; "
                         "error-vs-response and Get results of the structured replies compared with coq/Client.v; distinct = distinct (label, class, Get results, read/accessor outcomes)",
                    samples=stats["samples"][:6], classes=stats["classes"], http_framings=stats.get("http_framings"), structured_replies=stats["structured_replies"])
-    run.assumptions += ["model starts at decoded blocks (which roots/blocks/report the reply carries is construction knowledge of the harness)",
+    run.assumptions += ["byte-level model (coq/MessageBytes.v): the multihash digest function and go-ipld-cbor's verdict on a non-canonical CAR header are parameters, "
+                        "supplied per body by a reference walk that uses third-party code only; bindnode's acceptance of the AgentMessage schema (duplicate keys, strictness) "
+                        "was established by reading and experiment (notes/NOTES_BYTES.md) and is compared with the implementation on every body",
+                        "Client.v's structured cases still use the harness's construction knowledge (which roots / blocks / report a reply carries); the same bodies also go through the byte-level model",
+                        "reading the receipts a report names (NewReceipt, ReceiptReader.Read, accessors) is exercised under recover, not modelled",
                         "panics are observed with recover in the calling goroutine (the client code path starts no goroutine that could panic elsewhere)"]
 
 
 def replay(path):
+    doc = json.load(open(path))
+    if str(doc.get("key", "")).startswith("bytes-model:") and (doc.get("replay") or {}).get("body_hex") is not None:
+        return _bytes.replay(doc)
     print(open(path).read())
     return 0
